@@ -196,6 +196,8 @@ def v_render_component(c):
         d[sec][new] = d[sec].pop(old)
     elif k == "backend":
         d["resourceManager"] = {"config": {"backnd": "local"}}
+    elif k == "alien":
+        d["command"]["zzqx"] = 1
     elif k:
         raise ValueError("unknown key site %r" % k)
     # an option of the wrong type
